@@ -250,3 +250,35 @@ CHECKS["C12"] = {
     "outside": ["histories longer than one earlier call are covered by the one-step pre-state independence + frame argument (DESIGN.md C12), not enumerated"],
     "assumptions": PKI_ASSUME,
 }
+
+CHECKS["C11"] = {
+    "groups": ["pki", "c01", "c03", "c04", "c05", "c07", "c11"],
+    "quick": {"match": "^H11", "budget": 900},
+    "thorough": {"match": "^[HT]11", "budget": 3000, "query_timeout_ms": 120000},
+    "replay": "model",
+    "what": "verify.TdxQuote at the three option levels in the HONEST world: the stubs are constrained to what an honest platform and endpoint "
+            "produce (signature predicates true on the harness's own serialisations, report data = SHA256(key||auth)||0, three well-formed "
+            "CERTIFICATE blocks with optional trailing NUL, chain root = trusted root, all instants inside all windows, matching identity fields, a "
+            "matching UpToDate level at any position among 2, CRLs listing only other serials, some distribution point answering); all field "
+            "contents, QE auth data lengths {0,32,64} (thorough: 1, 200), symbolic-length extra bytes; asserted: err == nil",
+    "bounds": {"tcb_levels": "2", "module_identities": "1", "qe_levels": "2", "distribution_points": "2", "qe_auth_data": "{0,32,64} quick, +{1,200} thorough"},
+    "outside": ["acceptance of Intel's sample quote under real cryptography (a concrete run the repository's tests already do)",
+                "Processor-CA intermediates (rejected by the fixed name check; recorded as a modelling decision, not claimed either way)"],
+    "assumptions": PKI_ASSUME,
+}
+
+CHECKS["C16"] = {
+    "groups": ["pki", "c16"],
+    "quick": {"match": "^H16", "budget": 900},
+    "thorough": {"match": "^[HT]16", "budget": 3000, "query_timeout_ms": 120000},
+    "no_native_replay": ["H16a_ParseCopies", "H16b_ParsedQuote_Base", "H16c_ParsedQuote_Collateral", "T16d_ParsedQuote_Revocation", "H16e_SpareCapacity", "H16f_ExactCapacity"],
+    "what": "the engine's heap is concrete per path, so aliasing and write sets are exact: the quote (parsed from bytes: fields are views with large "
+            "capacity; built with spare capacity; built with cap == len), the raw input and the option byte strings are frozen over their whole "
+            "backing store (to capacity) together with the repository's package-level variables, then verify.TdxQuote (three levels, stubs answering "
+            "symbolically), ExtractChainFromQuote, abi.QuoteToAbiBytes and validate.TdxQuote run; any store / copy / in-place append into frozen "
+            "memory on a feasible path is a finding; parse result disjoint from the input; serialisation result is fresh memory",
+    "bounds": {"tcb_levels": "1", "qe_auth_data": "16 / 32 bytes", "spare_capacity": "16..48 bytes (symbolic contents)"},
+    "outside": ["interleavings are not explored: absence of shared writes (write-set argument, DESIGN.md C16) is what rules out data races",
+                "writes inside library code behind stubs (assumed not to write to their arguments)", "logger's own synchronisation"],
+    "assumptions": PKI_ASSUME + ["Go's append writes in place iff the result fits the capacity (solver-decided per call)"],
+}
